@@ -21,8 +21,10 @@ Definition invariants (c : c14_case) (obs : list Qc) : bool :=
       && forallb (fun s => Qceqb (sumQ (sm_species nc s obs)) (QcZ (Qcfloor (sumQ (sm_species nc s (c14_sm c)))))) (seq 0 ns)
   end.
 
-Definition accept_C14 (c : c14_case) (obs : list Qc) : verdict :=
-  let inv := invariants c obs in
+Definition accept_C14 (c : c14_case) (both : list Qc * list Qc) : verdict :=
+  let obs := fst both in
+  (* the second component is the t = 0 state of a second set-up of the same script in the same process: reproducible *)
+  let inv := invariants c obs && forall2b Qceqb obs (snd both) in
   let us := uniforms (mt_outputs (c14_seed c) (c14_blocks c)) in
   match init_state (c14_mode c) (c14_ns c) (c14_nc c) (c14_sm c) us with
   | Some y => (inv && forall2b Qceqb y (to_cell_major 0 (c14_ns c) (c14_nc c) obs), 1%nat)
